@@ -1,8 +1,11 @@
 #!/bin/bash
-# usage: m2_process.sh <id> <pkgdir> <prop> [<prop>...]  — confirm a round-2 seeded change in its scratch worktree, then run the checks against it
+# usage: m2_process.sh [-r N] <id> <pkgdir> <prop> [<prop>...]  — confirm a round-N seeded change (default 2) in its scratch worktree, then run the checks against it
+R=2
+if [ "$1" = "-r" ]; then R=$2; shift 2; fi
 ID=$1; PKG=$2; shift 2
-OUT=/tmp/m2-out/$ID
+OUT=/tmp/m$R-out/$ID
 echo "##### $ID confirm"
-/verif/tools/confirm_mutation.sh /tmp/m2-$ID $OUT/patch.diff $OUT/demo_test.go.txt $PKG 'M2|m2' 2>&1 | tail -2
+git -C /tmp/m$R-$ID add -A >/dev/null 2>&1; git -C /tmp/m$R-$ID reset -q >/dev/null 2>&1
+/verif/tools/confirm_mutation.sh /tmp/m$R-$ID $OUT/patch.diff $OUT/demo_test.go.txt $PKG "M$R|m$R" 2>&1 | tail -2
 echo "##### $ID checks: $@"
 /verif/tools/try_mutation.sh $OUT/patch.diff "$@" 2>&1 | tail -12
